@@ -537,6 +537,15 @@ def check_parser_pairing(run: Run) -> None:
     pm = run.project.mod("core.parser")
     cls = pm.cls("Parser")
     total = 0
+    # words are coalesced only where this rule reads: a `" ".join(<words>)` in the parser module outside the Parser's own methods
+    # (a helper class that accumulates the run, a module-level function) would pair with its receipt across objects, which the
+    # path search below does not follow - that is "not decided", not "holds"
+    for q_, f_ in pm.functions.items():
+        if f_.cls == cls.name:
+            continue
+        for n_ in walk_no_nested(f_.node):
+            if isinstance(n_, ast.Call) and isinstance(n_.func, ast.Attribute) and n_.func.attr == "join" and isinstance(n_.func.value, ast.Constant) and n_.func.value.value == " " and len(n_.args) == 1 and isinstance(n_.args[0], (ast.Name, ast.Attribute)):
+                raise AnalysisError(f"{q_}: words are joined into a value outside the Parser's methods (`{_text(n_)[:50]}`); the pairing of that rewrite with its multi_word_coalesce receipt is not decided")
     for name, fi in cls.methods.items():
         joins = []
         for n in walk_no_nested(fi.node):
